@@ -127,3 +127,6 @@ Fixpoint lclose (tol : Q) (a b : list Q) : bool :=
 Definition prog_case (w0 : Q) (ws : list Q) (tol : Q) (xkeep : list Q) (xtotal : Q) : bool :=
   lclose tol (prog_keeps (w0, [1]) ws) xkeep && close tol (fst (progressive w0 ws)) xtotal.
 Definition merge_case (bias : bool) (Wc Wn tol x : Q) : bool := close tol (merge_prob bias Wc Wn) x.
+
+(* which sub-key reproduces, bit for bit, the momentum of each leaf (found by the harness) *)
+Definition momentum_case (n : nat) (obs : list Z) : bool := list_eqb Z.eqb (leaf_keys n) obs.
